@@ -636,6 +636,63 @@ func reflectModels() map[string]modelFn {
 		ex.rpanic("reflect: call of reflect.Value.Int on %s Value", valueKindName(rv))
 		return nil
 	})
+	v("Cap", func(ex *Exec, rv RV, a []Val) Val {
+		switch rv.kind() {
+		case kSlice:
+			s, _ := rv.val().(Slice)
+			return goInt(s.Cap)
+		case kArray:
+			return goInt(int(rv.T.Underlying().(*types.Array).Len()))
+		case kPointer:
+			if at, ok := rv.T.Underlying().(*types.Pointer).Elem().Underlying().(*types.Array); ok {
+				return goInt(int(at.Len()))
+			}
+			ex.rpanic("reflect: call of reflect.Value.Cap on ptr to non-array Value")
+		case kChan:
+			unsupported("reflect.Value.Cap of a channel")
+		}
+		ex.rpanic("reflect: call of reflect.Value.Cap on %s Value", valueKindName(rv))
+		return nil
+	})
+	v("Uint", func(ex *Exec, rv RV, a []Val) Val {
+		switch rv.kind() {
+		case kUint, kUint8, kUint16, kUint32, kUint64, kUintptr:
+			i := rv.val().(Int)
+			if i.T != nil {
+				return mkInt(mkZext(i.T, 64), 64, false)
+			}
+			return cint(int64(i.C), 64, false)
+		}
+		ex.rpanic("reflect: call of reflect.Value.Uint on %s Value", valueKindName(rv))
+		return nil
+	})
+	v("Float", func(ex *Exec, rv RV, a []Val) Val {
+		switch rv.kind() {
+		case kFloat32, kFloat64:
+			f := rv.val().(Float)
+			f.W = 64
+			return f
+		}
+		ex.rpanic("reflect: call of reflect.Value.Float on %s Value", valueKindName(rv))
+		return nil
+	})
+	v("CanInt", func(ex *Exec, rv RV, a []Val) Val {
+		switch rv.kind() {
+		case kInt, kInt8, kInt16, kInt32, kInt64:
+			return Bool{C: true}
+		}
+		return Bool{C: false}
+	})
+	v("CanUint", func(ex *Exec, rv RV, a []Val) Val {
+		switch rv.kind() {
+		case kUint, kUint8, kUint16, kUint32, kUint64, kUintptr:
+			return Bool{C: true}
+		}
+		return Bool{C: false}
+	})
+	v("CanFloat", func(ex *Exec, rv RV, a []Val) Val {
+		return Bool{C: rv.kind() == kFloat32 || rv.kind() == kFloat64}
+	})
 	v("Bool", func(ex *Exec, rv RV, a []Val) Val {
 		if rv.kind() != kBool {
 			ex.rpanic("reflect: call of reflect.Value.Bool on %s Value", valueKindName(rv))
